@@ -1,7 +1,284 @@
 package main
 
-import "github.com/wader/fq/internal/verif/kit"
+// Seeded random descriptions beyond TLC's constants, and the corpus arm (sampled nodes of real sample decodes).
 
-func randValues(n int) []V { return nil }
+import (
+	"encoding/json"
+	"fmt"
+	"math/rand"
+	"os"
+	"path/filepath"
+	"strings"
 
-func corpus(jobs string, qs []Query, out *kit.Out) {}
+	"github.com/wader/fq/internal/verif/kit"
+	"github.com/wader/fq/pkg/interp"
+)
+
+// ---------------------------------------------------------------- random values
+
+var uintPool = []string{"0", "1", "5", "255", "256", "65535", "65536", "2147483648", "4294967296", "9007199254740992", "9007199254740993",
+	"9223372036854775807", "9223372036854775808", "18446744073709551615"}
+var sintPool = []string{"-1", "-5", "7", "-128", "127", "-129", "-2147483649", "-9007199254740993", "9223372036854775807", "-9223372036854775808"}
+var bigPool = []string{"18446744073709551616", "18446744073709551617", "-18446744073709551616", "1267650600228229401496703205376", "5", "-5", "0",
+	"-9223372036854775808", "9223372036854775808"}
+var fltPool = []string{"1.5", "-0.5", "3", "0", "1e300", "1e-7", "0.1", "123456789.125", "9007199254740992", "-2.25"}
+var strPool = []string{"", "abc", "åb", "日本", "a b", "12", "-3.5", "true", "null", "A", "x\"y\\z", "a\nb", "cab", "abcabc"}
+var namePool = []string{"a", "b", "c", "zz", "x1", "name", "type", "B", "a_b", "0"}
+
+func pick(r *rand.Rand, p []string) string { return p[r.Intn(len(p))] }
+
+func randSym(r *rand.Rand) J {
+	switch r.Intn(9) {
+	case 0, 1, 2, 3:
+		return jNone
+	case 4:
+		return jn("str", pick(r, strPool[1:]))
+	case 5:
+		return jnum(pick(r, uintPool))
+	case 6:
+		return jnum(pick(r, sintPool))
+	case 7:
+		return jnum(pick(r, fltPool))
+	default:
+		if r.Intn(2) == 0 {
+			return jn("bool", "true")
+		}
+		return jn("bool", "false")
+	}
+}
+
+func randBits(r *rand.Rand) string {
+	var bs []byte
+	switch r.Intn(4) {
+	case 0: // ascii
+		bs = []byte(pick(r, strPool[1:]))
+	case 1: // invalid utf-8
+		bs = []byte{0xff, 'a', 0xc3}
+		bs = bs[:1+r.Intn(3)]
+	case 2:
+		bs = []byte{0xe5, 0x97, 0xa5, 0x80, 'b'}[:1+r.Intn(5)]
+	default:
+		bs = make([]byte, 1+r.Intn(4))
+		r.Read(bs)
+	}
+	var sb strings.Builder
+	for _, b := range bs {
+		fmt.Fprintf(&sb, "%08b", b)
+	}
+	s := sb.String()
+	if r.Intn(3) == 0 && len(s) > 8 { // not byte aligned
+		s = s[:len(s)-1-r.Intn(7)]
+	}
+	return s
+}
+
+func randScalar(r *rand.Rand) V {
+	v := V{T: "scalar", Names: []string{}, Kids: []V{}, A: jNone, Sym: randSym(r)}
+	if r.Intn(6) == 0 {
+		v.Desc = pick(r, []string{"five things", "d", "a description"})
+	}
+	canSyn := true
+	switch r.Intn(9) {
+	case 0:
+		v.Kind, v.A = "uint", jnum(pick(r, uintPool))
+	case 1:
+		v.Kind, v.A = "sint", jnum(pick(r, sintPool))
+	case 2:
+		v.Kind, v.A = "big", jnum(pick(r, bigPool))
+	case 3:
+		v.Kind, v.A = "flt", jnum(pick(r, fltPool))
+	case 4:
+		v.Kind, v.A = "str", jn("str", pick(r, strPool))
+	case 5:
+		v.Kind, v.A = "bool", jn("bool", pick(r, []string{"true", "false"}))
+	case 6:
+		v.Kind, v.A, v.Syn, canSyn = "null", jNull, true, false
+	case 7:
+		v.Kind, v.Syn, canSyn = "any", true, false
+		switch r.Intn(3) {
+		case 0:
+			v.A = J{T: "arr", K: []string{}, E: []J{jnum(pick(r, uintPool)), jn("str", pick(r, strPool)), jNull}[:r.Intn(4)]}
+		case 1:
+			v.A = J{T: "obj", K: []string{"k"}, E: []J{jnum(pick(r, sintPool))}}
+		default:
+			v.A = J{T: "obj", K: []string{"a", "b"}, E: []J{jn("str", pick(r, strPool)), jnum("1")}}
+		}
+	default:
+		canSyn = false
+		v.Kind = "raw"
+		v.Bits = randBits(r)
+		v.A = jn("str", rawText(v.Bits))
+		v.Inv = !rawValid(v.Bits)
+	}
+	if canSyn && r.Intn(8) == 0 {
+		v.Syn = true
+	}
+	return v
+}
+
+func randValue(r *rand.Rand, depth int) V {
+	if depth == 0 || r.Intn(3) == 0 {
+		return randScalar(r)
+	}
+	n := r.Intn(5)
+	if r.Intn(2) == 0 {
+		v := V{T: "array", Names: []string{}, Kids: []V{}, A: jNone, Sym: jNone}
+		for i := 0; i < n; i++ {
+			v.Kids = append(v.Kids, randValue(r, depth-1))
+		}
+		return v
+	}
+	v := V{T: "struct", Names: []string{}, Kids: []V{}, A: jNone, Sym: jNone}
+	perm := r.Perm(len(namePool))
+	for i := 0; i < n; i++ {
+		v.Names = append(v.Names, namePool[perm[i]])
+		v.Kids = append(v.Kids, randValue(r, depth-1))
+	}
+	return v
+}
+
+// a root struct with real gap fields: non-synthetic scalars with undecoded stretches (>= 8 bits, never adjacent) between them
+func randGapRoot(r *rand.Rand) V {
+	v := V{T: "struct", Names: []string{}, Kids: []V{}, A: jNone, Sym: jNone}
+	perm := r.Perm(len(namePool))
+	n := 1 + r.Intn(4)
+	g := 0
+	gapNext := r.Intn(2) == 0
+	for i := 0; i < n; i++ {
+		if gapNext {
+			bits := randBits(r)
+			for len(bits) < 8 {
+				bits += "1"
+			}
+			v.Names = append(v.Names, fmt.Sprintf("gap%d", g))
+			v.Kids = append(v.Kids, V{T: "scalar", Names: []string{}, Kids: []V{}, Kind: "raw", A: jn("str", rawText(bits)), Sym: jNone, Gap: true, Bits: bits, Inv: !rawValid(bits)})
+			g++
+		}
+		var s V
+		for {
+			s = randScalar(r)
+			if !s.Syn && !(s.Kind == "str" && s.A.S == "") {
+				break
+			}
+		}
+		v.Names = append(v.Names, namePool[perm[i]])
+		v.Kids = append(v.Kids, s)
+		gapNext = r.Intn(2) == 0
+	}
+	if g == 0 {
+		bits := "0110000101100010"
+		v.Names = append(v.Names, "gap0")
+		v.Kids = append(v.Kids, V{T: "scalar", Names: []string{}, Kids: []V{}, Kind: "raw", A: jn("str", "ab"), Sym: jNone, Gap: true, Bits: bits})
+	}
+	return v
+}
+
+func randValues(n int) []V {
+	r := rand.New(rand.NewSource(kit.Seed()*7919 + 17))
+	var out []V
+	for i := 0; i < n; i++ {
+		var v V
+		switch {
+		case i%10 == 9:
+			v = randGapRoot(r)
+		case i%3 == 0:
+			v = randScalar(r)
+		default:
+			v = randValue(r, 1+r.Intn(3))
+		}
+		v.fix()
+		out = append(out, v)
+	}
+	return out
+}
+
+// ---------------------------------------------------------------- corpus arm
+
+func init() {
+	// `_c08_describe`: the abstract description of the REAL decode value it is applied to (null when outside the
+	// described universe), taken from the *decode.Value the interp wrapper holds - not from any JQValue method.
+	interp.RegisterFunc0("_c08_describe", func(_ *interp.Interp, c any) any {
+		dvv, ok := c.(interp.DecodeValue)
+		if !ok {
+			return nil
+		}
+		d, ok := describe(dvv.DecodeValue(), &descOpts{maxNodes: 14})
+		if !ok || dupNames(&d) {
+			return nil
+		}
+		b, _ := json.Marshal(d)
+		if len(b) > 6000 {
+			return nil
+		}
+		return string(b)
+	})
+}
+
+func dupNames(v *V) bool {
+	seen := map[string]bool{}
+	for i := range v.Kids {
+		if v.T == "struct" {
+			if seen[v.Names[i]] {
+				return true
+			}
+			seen[v.Names[i]] = true
+		}
+		if dupNames(&v.Kids[i]) {
+			return true
+		}
+	}
+	return false
+}
+
+type corpusJob struct {
+	File   string `json:"file"`
+	Format string `json:"format"`
+	Picks  []int  `json:"picks"`
+}
+
+func corpus(jobsPath string, qs []Query, out *kit.Out) {
+	prog := program0(qs) + `
+. as $root | [path(..)] as $ps | ($ps | length) as $n
+| ([$picks[] | $ps[. % $n]] | unique | .[]) as $p
+| $root | getpath($p)
+| _c08_describe as $d
+| if $d == null then empty else [$p, $d, _c08run, (tovalue | _c08run)] | tojson end
+`
+	stats := map[string]int{}
+	kit.Cases(jobsPath, func(_ int, raw []byte) {
+		var j corpusJob
+		kit.Unmarshal(raw, &j)
+		b, err := os.ReadFile(j.File)
+		if err != nil {
+			kit.Fatalf("read %s: %v", j.File, err)
+		}
+		pj, _ := json.Marshal(j.Picks)
+		name := filepath.Base(j.File)
+		so, se, code := runFq(map[string][]byte{name: b}, "-r", "-d", j.Format, "--argjson", "picks", string(pj), prog, name)
+		if code != 0 || strings.TrimSpace(se) != "" {
+			stats["files_failed"]++
+			fmt.Fprintf(os.Stderr, "c08 corpus: %s (%s): code %d: %s\n", j.File, j.Format, code, tail(strings.TrimSpace(se), 300))
+			return
+		}
+		stats["files"]++
+		for _, line := range strings.Split(strings.TrimRight(so, "\n"), "\n") {
+			if line == "" {
+				continue
+			}
+			r := parseLine(line)
+			if r.T != "arr" || len(r.E) != 4 {
+				kit.Fatalf("corpus: unexpected result shape")
+			}
+			var v V
+			if err := json.Unmarshal([]byte(r.E[1].S), &v); err != nil {
+				kit.Fatalf("corpus: bad description: %v", err)
+			}
+			v.fix()
+			pb, _ := json.Marshal(plain(r.E[0]))
+			stats["nodes"]++
+			emitPairs(qs, &v, fmt.Sprintf("%s -d %s %s", j.File, j.Format, pb), J{T: "arr", E: []J{r.E[2], r.E[3]}}, out)
+		}
+	})
+	sb, _ := json.Marshal(stats)
+	fmt.Println(string(sb))
+}
